@@ -309,7 +309,7 @@ func (hp *HTTPProxy) configureProxy() error {
 
 		if hp.config.MITMDomains != nil {
 			hp.proxy.MITMFilter = func(req *http.Request) bool {
-				return matchHost(hp.config.MITMDomains, req.URL.Hostname())
+				return matchHost(hp.config.MITMDomains, targetHost(req.URL))
 			}
 		}
 		hp.proxy.MITMTLSHandshakeTimeout = hp.config.TLSServerConfig.HandshakeTimeout
@@ -582,7 +582,7 @@ func (hp *HTTPProxy) injectKerberosUpstreamProxyAuthorizationHeader() martian.Re
 
 func (hp *HTTPProxy) denyLocalhost() martian.RequestModifier {
 	return martian.RequestModifierFunc(func(req *http.Request) error {
-		if hp.isLocalhost(req.URL.Hostname()) {
+		if hp.isLocalhost(targetHost(req.URL)) {
 			return ErrProxyLocalhost
 		}
 		return nil
@@ -591,7 +591,7 @@ func (hp *HTTPProxy) denyLocalhost() martian.RequestModifier {
 
 func (hp *HTTPProxy) denyDomains(r Matcher) martian.RequestModifier {
 	return martian.RequestModifierFunc(func(req *http.Request) error {
-		if matchHost(r, req.URL.Hostname()) {
+		if matchHost(r, targetHost(req.URL)) {
 			return ErrProxyDenied
 		}
 		return nil
@@ -604,7 +604,7 @@ func (hp *HTTPProxy) directDomains(fn ProxyFunc) ProxyFunc {
 	}
 
 	return func(req *http.Request) (*url.URL, error) {
-		if matchHost(hp.config.DirectDomains, req.URL.Hostname()) {
+		if matchHost(hp.config.DirectDomains, targetHost(req.URL)) {
 			return nil, nil
 		}
 		return fn(req)
@@ -617,7 +617,7 @@ func (hp *HTTPProxy) directLocalhost(fn ProxyFunc) ProxyFunc {
 	}
 
 	return func(req *http.Request) (*url.URL, error) {
-		if hp.isLocalhost(req.URL.Hostname()) {
+		if hp.isLocalhost(targetHost(req.URL)) {
 			return nil, nil
 		}
 		return fn(req)
@@ -646,6 +646,16 @@ func matchHost(m Matcher, host string) bool {
 		}
 	}
 	return false
+}
+
+// targetHost is the host of the authority the request will be sent to, the way the dialler reads it. A target taken from
+// the Host field of a request in origin-form is not parsed as a URL is: url.URL does not take ":+80" or ":http" for a
+// port and gives the whole string for the host, the dialler connects to port 80 of the host before the colon.
+func targetHost(u *url.URL) string {
+	if h, _, err := net.SplitHostPort(u.Host); err == nil {
+		return h
+	}
+	return u.Hostname()
 }
 
 // lowerASCII lower-cases the ASCII letters of s, and only those: under Unicode rules other letters
